@@ -36,6 +36,10 @@ CONTRACTS = {
     "RegRefTransform": {"qual": "RegRefTransform.__init__", "ctor": True, "params": ["self", "expr"], "reads": [], "modifies": [], "raises": "any",
                         "spec": "spec_RegRefTransform_init", "props": ["C08", "C19"], "families": ["regref_transform"],
                         "fields": ["expr", "func", "regrefs", "func_str"]},
+    "RegRefTransform_str": {"qual": "RegRefTransform.__str__", "params": ["self"], "reads": ["self.func_str"], "modifies": [], "raises": [],
+                            "spec": "spec_RegRefTransform_str", "props": ["C08", "C01"], "families": ["regref_transform"]},
+    "listener_program": {"qual": "BlackbirdListener.program", "params": ["self"], "reads": ["self._program"], "modifies": [], "raises": [],
+                         "spec": "spec_listener_program", "props": ["C02", "C12"], "families": ["load_denote"]},
     "BlackbirdListener": {"qual": "BlackbirdListener.__init__", "ctor": True, "params": ["self", "cwd"], "defaults": {"cwd": None}, "reads": [],
                           "modifies": [], "raises": [], "spec": "spec_BlackbirdListener_init", "props": ["C07", "C12"],
                           "fields": ["_program", "_includes", "_cwd", "_in_for"], "families": ["include_inline", "history"]},
@@ -93,6 +97,14 @@ def spec_RegRefTransform_init(self, expr):
     self.func = sym.lambdify(L, expr)
     self.regrefs = [int(str(i)[1:]) for i in L]
     self.func_str = str(expr)
+
+
+def spec_RegRefTransform_str(self):
+    return self.func_str                         # C08: a transform prints as the expression it was built from
+
+
+def spec_listener_program(self):
+    return self._program                         # C02/C12: the program this listener filled, nothing else
 
 
 def spec_BlackbirdListener_init(self, cwd):
